@@ -28,6 +28,8 @@ def build(V, opts=None):
     t.report_start = 0
     t.start_clocktime = 2 * 3600
     t.statistic = 'NONE'
+    for k_, v_ in (o.get('times') or {}).items():
+        setattr(t, k_, v_)
     h = wn.options.hydraulic
     h.demand_multiplier = 1.25
     h.specific_gravity = 0.998
@@ -46,6 +48,8 @@ def build(V, opts=None):
     h.minimum_pressure = 1.5
     h.required_pressure = 25.0
     h.pressure_exponent = 0.55
+    for k_, v_ in (o.get('hyd') or {}).items():
+        setattr(h, k_, v_)
     if o['quality']:
         wn.options.quality.parameter = 'CHEMICAL'
         wn.options.quality.chemical_name = 'Cl2'
@@ -162,8 +166,8 @@ def _symbolise(V, wn, syms, o):
         _set(V, syms, j1, '_initial_quality', 'q0_J1', 0, 100)
     for tn, tk in wn.tanks():
         _set(V, syms, tk, '_elevation', 'elev_' + tn, -100, 3000)
-        _set(V, syms, tk, '_min_level', 'min_' + tn, 0, 5)
-        _set(V, syms, tk, '_max_level', 'max_' + tn, 6, 50)
+        _set(V, syms, tk, '_min_level', 'min_' + tn, 0, 4)
+        _set(V, syms, tk, '_max_level', 'max_' + tn, 7, 50)
         _set(V, syms, tk, '_init_level', 'init_' + tn, 5, 6)
         _set(V, syms, tk, '_diameter', 'diam_' + tn, 1, 100)
         tk._head = tk._init_level + tk._elevation
@@ -188,7 +192,7 @@ def _symbolise(V, wn, syms, o):
         for k, (a, b) in enumerate(p2._vertices):
             syms['vx%d_P2' % k], syms['vy%d_P2' % k] = a, b
     _set(V, syms, wn.get_link('PU2'), '_base_power', 'power_PU2', 10, 1e6)
-    _set(V, syms, wn.get_link('PU1')._speed_timeseries, '_base', 'speed_PU1', 0.1, 2)
+    _set(V, syms, wn.get_link('PU1')._speed_timeseries, '_base', 'speed_PU1', 1.1, 2)
     _set(V, syms, wn.get_link('PU1'), '_energy_price', 'eprice_PU1', 0, 1) if hasattr(wn.get_link('PU1'), '_energy_price') else None
     for vn, v in wn.valves():
         if vn == 'GPV':
@@ -211,7 +215,7 @@ def _symbolise(V, wn, syms, o):
         c = wn.get_curve(cn)
         pts = []
         for k, (x, y) in enumerate(c._points):
-            px = V.real('cx_%s_%d' % (cn, k), 0.001 * (k + 1), 0.05 * (k + 1)) if cn != 'VOL' else V.real('cx_%s_%d' % (cn, k), *[(-1.0, 0.0), (3.0, 5.0), (50.0, 60.0)][k])
+            px = V.real('cx_%s_%d' % (cn, k), 0.001 * (k + 1), 0.05 * (k + 1)) if cn != 'VOL' else V.real('cx_%s_%d' % (cn, k), *[(-1.0, -0.5), (3.0, 5.0), (55.0, 60.0)][k])
             py = V.real('cy_%s_%d' % (cn, k), 1 + k * 300, 300 + k * 300) if cn == 'VOL' else V.real('cy_%s_%d' % (cn, k), 1, 99)
             syms['cx_%s_%d' % (cn, k)], syms['cy_%s_%d' % (cn, k)] = px, py
             pts.append((px, py))
@@ -221,9 +225,13 @@ def _symbolise(V, wn, syms, o):
             _set(V, syms, s.strength_timeseries, '_base', 'str_' + sn, 0, 1000)
     hopt = wn.options.hydraulic.__dict__
     for nm, lo, hi in (('demand_multiplier', 0.1, 10), ('specific_gravity', 0.5, 2), ('viscosity', 0.1, 10), ('emitter_exponent', 0.1, 2), ('accuracy', 1e-6, 0.1),
-                       ('minimum_pressure', 0, 5), ('required_pressure', 10, 100), ('pressure_exponent', 0.1, 1), ('headerror', 0, 1), ('flowchange', 0, 1), ('damplimit', 0, 1)):
+                       ('minimum_pressure', 0, 5), ('required_pressure', 10, 100), ('pressure_exponent', 0.1, 1), ('headerror', 0.001, 1), ('flowchange', 0.001, 1), ('damplimit', 0.001, 1)):
         hopt[nm] = V.real('opt_' + nm, lo, hi)
         syms['opt_' + nm] = hopt[nm]
+    for k_, v_ in (o.get('hyd_after') or {}).items():       # concrete special values (0 = "not written") override the symbolic ones
+        hopt[k_] = v_
+    if o.get('speed') is not None:
+        wn.get_link('PU1')._speed_timeseries._base = o['speed']
     eopt = wn.options.energy.__dict__
     for nm, lo, hi in (('global_price', 0, 1), ('global_efficiency', 1, 100), ('demand_charge', 0, 100)):
         eopt[nm] = V.real('opt_' + nm, lo, hi)
@@ -247,6 +255,8 @@ def _controls(V, wn, syms, o):
     sym = o['sym']
 
     def num(name, lo, hi, default, kind='real'):
+        if kind == 'int' and o.get('concrete_times') is not None:
+            return o['concrete_times'].get(name, default)
         if not sym:
             return default
         v = V.real(name, lo, hi) if kind == 'real' else V.int(name, lo, hi)
@@ -282,6 +292,23 @@ def _controls(V, wn, syms, o):
         then = [ControlAction(pu3, 'status', LinkStatus.Closed), ControlAction(fcv, 'setting', num('rt_fcvset', 0.001, 1, 0.02))]
         els = [ControlAction(pu3, 'status', LinkStatus.Open)]
         wn.add_control('rule1', Rule(cond, then, els, priority=ControlPriority(4), name='rule1'))
+        if o.get('more_controls', True):
+            # a setting action for every valve kind and a pump speed, in THEN and in ELSE position, and as simple controls
+            psv, pbv, pu1 = wn.get_link('PSV'), wn.get_link('PBV'), wn.get_link('PU1')
+            c5 = ValueCondition(t1, 'level', Comparison.le, 0.0)
+            c5._threshold = num('r3_level', 0, 20, 1.5)
+            then3 = [ControlAction(prv, 'setting', num('r3_prvset', 1, 100, 33.0)), ControlAction(psv, 'setting', num('r3_psvset', 1, 100, 41.0)),
+                     ControlAction(tcv, 'setting', num('r3_tcvset', 0.1, 100, 7.0)), ControlAction(pu1, 'base_speed', num('r3_speed', 0.2, 2, 0.8))]
+            else3 = [ControlAction(pbv, 'setting', num('r3_pbvset', 1, 100, 9.0)), ControlAction(fcv, 'setting', num('r3_fcvset', 0.001, 1, 0.015)),
+                     ControlAction(prv, 'setting', num('r3_prvset2', 1, 100, 28.0)), ControlAction(pu1, 'base_speed', num('r3_speed2', 0.2, 2, 1.2))]
+            wn.add_control('rule3', Rule(c5, then3, else3, priority=ControlPriority(1), name='rule3'))
+            for k_, (lnk, lo, hi, dflt) in enumerate(((fcv, 0.001, 1, 0.03), (psv, 1, 100, 38.0), (pbv, 1, 100, 11.0))):
+                cc = SimTimeCondition(wn, Comparison.eq, 0)
+                cc._threshold = num('ct_time%d' % (k_ + 3), 0, 36000, 3000 + 1000 * k_, 'int')
+                wn.add_control('ctl_set%d' % k_, Control(cc, ControlAction(lnk, 'setting', num('ct_set%d' % k_, lo, hi, dflt))))
+            cc = ValueCondition(t1, 'level', Comparison.gt, 0.0)
+            cc._threshold = num('ct_level2', 0, 20, 4.5)
+            wn.add_control('ctl_speed', Control(cc, ControlAction(pu1, 'base_speed', num('ct_speed', 0.2, 2, 0.9))))
         c4 = TimeOfDayCondition(wn, Comparison.ge, 0, repeat=True)
         c4._threshold = 6 * 3600
         wn.add_control('rule2', Rule(c4, [ControlAction(tcv, 'status', LinkStatus.Open)], None, priority=ControlPriority(2), name='rule2'))
